@@ -128,8 +128,21 @@ func (s *ScriptNode) Run(ctx execution.ExecutionContext, produce execution.Produ
 	return nil
 }
 
+// collectRerun: for a deterministic quarter of the op lines (chosen by main from a hash of the line) Collect runs the
+// node TWICE and reports the second run. A materialised node is run repeatedly in real plans (the joined side of a
+// LOOKUP JOIN, a subquery expression: once per outer record), so state that survives a Run is a defect the single-run
+// drivers could not see. ScriptNode sources replay the same messages on every Run.
+var collectRerun bool
+
 // Collect runs a node and returns everything it emitted, in order, plus the error text class.
 func Collect(ctx execution.ExecutionContext, n execution.Node) (out []Msg, err error) {
+	if collectRerun {
+		collectOnce(ctx, n)
+	}
+	return collectOnce(ctx, n)
+}
+
+func collectOnce(ctx execution.ExecutionContext, n execution.Node) (out []Msg, err error) {
 	err = n.Run(ctx,
 		func(_ execution.ProduceContext, r execution.Record) error {
 			out = append(out, Msg{Rec: execution.Record{Values: append([]execution_Value(nil), r.Values...), Retraction: r.Retraction, EventTime: r.EventTime}})
